@@ -1122,6 +1122,8 @@ def run(rep, tier):
     rep.floor("name buffer cases", c15_audit.name_fit_rule(rep, ud), 12)
     rep.floor("attribute gathering cases", c15_audit.gather_rule(rep, ur), 2)
     rep.floor("shifted copies inside the caller's buffers", c15_audit.inplace_rule(rep, ud), 1)
+    c15_audit.reply_authenticated_rule(rep, ur)
+    rep.floor("packet codes with a NULL authenticator", c15_audit.reply_needs_request_authenticator_rule(rep, ur, macro_consts(["RADIUS_PKT_TYPE_" + n_ for n_ in c15_audit.REPLY_CODES + c15_audit.RANDOM_AUTH_CODES + c15_audit.REQUEST_CODES])), 14)
     ct_compare_rule(rep, ur)
     rep.floor("verify outcome combinations", verify_rule(rep, ur), 8)
     # every legal name (up to 127 labels) parses back: the walkers' anti-loop counter limits pointer jumps, not labels
